@@ -36,7 +36,8 @@ from pathlib import Path
 from . import common
 from . import c11
 
-COMP = {'A': 'T', 'T': 'A', 'C': 'G', 'G': 'C', 'N': 'N'}
+COMP = {'A': 'T', 'T': 'A', 'C': 'G', 'G': 'C', 'N': 'N',
+        'a': 't', 't': 'a', 'c': 'g', 'g': 'c', 'n': 'n'}
 KF_NEG = 'vep-insertion-anchored-before-gene-start'
 KF_REDI = 'reditools-record-for-transcript-not-containing-site'
 FREQS = ['0', '0.05', '0.1', '0.125', '0.2', '0.25', '0.3', '0.5', '0.75', '1']
@@ -1003,6 +1004,16 @@ def malformed(ctx, i, S, annos):
 def process(ctx, i, S, annos, stream='anno', light=False):
     rng = ctx.rng(stream, i)
     a = gen_ref(rng, i)
+    if rng.random() < 0.3:
+        # a soft-masked genome (Ensembl dna_sm / UCSC style): stretches in lower case
+        for name in list(a.chroms):
+            seq = list(a.chroms[name])
+            for _ in range(rng.randint(1, 6)):
+                x = rng.randrange(len(seq))
+                y = min(len(seq), x + rng.randint(1, 60))
+                seq[x:y] = [c.lower() for c in seq[x:y]]
+            a.chroms[name] = ''.join(seq)
+        ctx.count('anno', 'soft_masked_genomes')
     annos[i] = a
     ctx.count('anno', 'annotations')
     ctx.count('anno', 'genes', len(a.genes))
